@@ -8,7 +8,8 @@ ENGINE = "E0 pure"
 TECHNIQUE = "Hypothesis pairs of caps (equal / one field changed / other kind) wrapped in every node class by two independent NodeMakers; oracle = equality of capability strings"
 RULE = ("pairs (A,B) of caps of every kind: B identical to A, B differing in exactly one field, or B of another kind; compared as raw cap objects and as "
         "nodes (ImmutableFileNode, LiteralFileNode, MutableFileNode, DirectoryNode over every inner kind) built by two distinct NodeMakers so that "
-        "caching cannot make them the same object. Non-trivial = pair with equal strings but distinct objects, or pair differing in one field; distinct by (A,B).")
+        "caching cannot make them the same object. Non-trivial = pair with equal strings but distinct objects, or pair differing in one field; distinct by (A,B)."
+        ' Also: nodes for CHK verify caps (CiphertextFileNode) and unknown caps / UnknownNode, each built by two NodeMakers.')
 LEVEL_TEXT = "Search over pairs of equal and nearly-equal capabilities in every wrapper class; oracle is string equality."
 ASSUMPTIONS = ["nodes are built without a storage broker and never used for I/O"]
 REQUIRED_CLASSES = ["node:UnknownNode", "node:CiphertextFileNode", "equal-distinct-objects", "one-field-differs", "node:ImmutableFileNode", "node:LiteralFileNode", "node:MutableFileNode", "node:DirectoryNode"]
